@@ -108,9 +108,52 @@ pub fn run_one(bump: &Bump, op: &Op) -> (String, Vec<(&'static str, String)>) {
                 }
             }
         }
+        Op::Glue(a, b) => {
+            for (what, c, s) in glue_both(bump, a, b) {
+                if c != s {
+                    fails.push(("glue-std", format!("{}: bumpalo={} std={}", what, c, s)));
+                }
+            }
+            "ok".to_string()
+        }
         _ => "unsupported".to_string(),
     };
     (res, fails)
+}
+
+/// every trait impl of `collections::String` that has a counterpart on `std::string::String`, on the pair (a, b):
+/// (what, the crate's answer, std's answer) as text; a panic on either side is the answer "panic"
+fn glue_both(bump: &Bump, a: &str, b: &str) -> Vec<(&'static str, String, String)> {
+    use std::borrow::{Borrow, Cow};
+    use std::collections::hash_map::DefaultHasher;
+    use std::hash::{Hash, Hasher};
+    use std::panic::{catch_unwind, AssertUnwindSafe};
+    type BS<'x> = bumpalo::collections::String<'x>;
+    let h = |x: &dyn Fn(&mut DefaultHasher)| { let mut s = DefaultHasher::new(); x(&mut s); s.finish() };
+    let g = |f: &dyn Fn() -> String| catch_unwind(AssertUnwindSafe(f)).unwrap_or_else(|_| "panic".to_string());
+    let (ca, cb) = (BS::from_str_in(a, bump), BS::from_str_in(b, bump));
+    let (sa, sb) = (a.to_string(), b.to_string());
+    let mut v: Vec<(&'static str, String, String)> = vec![];
+    v.push(("eq/ne", g(&|| format!("{} {}", ca == cb, ca != cb)), g(&|| format!("{} {}", sa == sb, sa != sb))));
+    v.push(("eq-str", g(&|| format!("{} {} {} {}", ca == *b, ca != *b, *b == ca, *b != ca)), g(&|| format!("{} {} {} {}", sa == *b, sa != *b, *b == sa, *b != sa))));
+    v.push(("eq-&str", g(&|| format!("{} {} {} {}", ca == b, ca != b, b == ca, b != ca)), g(&|| format!("{} {} {} {}", sa == b, sa != b, b == sa, b != sa))));
+    v.push(("eq-cow", g(&|| { let c: Cow<str> = Cow::Borrowed(b); format!("{} {} {} {}", ca == c, ca != c, c == ca, c != ca) }),
+            g(&|| { let c: Cow<str> = Cow::Borrowed(b); format!("{} {} {} {}", sa == c, sa != c, c == sa, c != sa) })));
+    v.push(("eq-std-string", g(&|| format!("{} {} {} {}", ca == sb, ca != sb, sb == ca, sb != ca)), g(&|| format!("{} {} {} {}", sa == sb, sa != sb, sb == sa, sb != sa))));
+    v.push(("ord", g(&|| format!("{:?} {:?} {} {} {} {}", ca.partial_cmp(&cb), ca.cmp(&cb), ca < cb, ca <= cb, ca > cb, ca >= cb)),
+            g(&|| format!("{:?} {:?} {} {} {} {}", sa.partial_cmp(&sb), sa.cmp(&sb), sa < sb, sa <= sb, sa > sb, sa >= sb))));
+    v.push(("hash", g(&|| format!("{}", h(&|s| ca.hash(s)))), g(&|| format!("{}", h(&|s| sa.hash(s))))));
+    v.push(("fmt", g(&|| format!("{}|{:?}|{:>7}|{:.2}", ca, ca, ca, ca)), g(&|| format!("{}|{:?}|{:>7}|{:.2}", sa, sa, sa, sa))));
+    v.push(("views", g(&|| { let r: &str = ca.as_ref(); let y: &[u8] = ca.as_ref(); let z: &str = ca.borrow(); format!("{:?} {:?} {:?} {:?} {:?} {}", r, y, z, &*ca, ca.as_str(), ca.len()) }),
+            g(&|| { let r: &str = sa.as_ref(); let y: &[u8] = sa.as_ref(); let z: &str = sa.borrow(); format!("{:?} {:?} {:?} {:?} {:?} {}", r, y, z, &*sa, sa.as_str(), sa.len()) })));
+    v.push(("add", g(&|| { let mut x = BS::from_str_in(a, bump) + b; x += b; format!("{:?}", x) }), g(&|| { let mut x = a.to_string() + b; x += b; format!("{:?}", x) })));
+    v.push(("drain-iter", g(&|| { let mut x = BS::from_str_in(a, bump); let r = { let mut d = x.drain(..); let p = (d.size_hint(), d.next(), d.next_back(), d.next()); let rest: std::string::String = d.collect(); format!("{:?} {:?}", p, rest) }; format!("{} {:?}", r, x) }),
+            g(&|| { let mut x = a.to_string(); let r = { let mut d = x.drain(..); let p = (d.size_hint(), d.next(), d.next_back(), d.next()); let rest: std::string::String = d.collect(); format!("{:?} {:?}", p, rest) }; format!("{} {:?}", r, x) })));
+    v.push(("from-utf8", g(&|| { let bytes = bumpalo::collections::Vec::from_iter_in(a.bytes().chain(b.bytes().take(1)).chain(std::iter::once(0xFFu8)), bump);
+                                 match BS::from_utf8(bytes) { Ok(s) => format!("ok {:?}", s), Err(e) => { let t = format!("err {:?} {}", e.as_bytes(), e.utf8_error()); format!("{} {:?}", t, e.into_bytes().len()) } } }),
+            g(&|| { let bytes: Vec<u8> = a.bytes().chain(b.bytes().take(1)).chain(std::iter::once(0xFFu8)).collect();
+                    match std::string::String::from_utf8(bytes) { Ok(s) => format!("ok {:?}", s), Err(e) => { let t = format!("err {:?} {}", e.as_bytes(), e.utf8_error()); format!("{} {:?}", t, e.into_bytes().len()) } } })));
+    v
 }
 
 fn emit(out: &mut Outp, bump: &Bump, op: Op, idx: usize, line: bool) {
@@ -170,6 +213,17 @@ pub fn run(mode: &str, maxlen: usize, part: (usize, usize), n: usize, seed: u64,
         }
     };
     match mode {
+        "glue" => {
+            let texts = ["", "a", "b", "ab", "aé", "é", "éa", "z\u{10FFFF}", "a\0", "\u{7FF}\u{800}", "ab\"c\\", "日本"];
+            let mut i = 0usize;
+            for a in texts.iter() {
+                for b in texts.iter() {
+                    emit(out, &bump, Op::Glue(a.to_string(), b.to_string()), 0, i % 12 == 0);
+                    i += 1;
+                    tick(&mut bump);
+                }
+            }
+        }
         "exh" => {
             let all: Vec<u8> = (0..=255u8).collect();
             if part.0 == 0 {
